@@ -7,6 +7,9 @@ CLAIMED = {
  'C17': dict(cat='model_checking', tech='bounded model checking (CBMC/SAT) of C translated from the clang IR of the real SafeInt templates; full-width symbolic operands',
    text='Every instantiation listed (7 types x add/sub/abs, 8/16-bit mul, 63 ctor pairs, mixed forms) is decided for ALL operand bit patterns by CBMC on the ll2c translation of the real templates; counterexamples are replayed on the g++ build. 32/64-bit multiplication is decided by the integer-encoding engine.',
    note='Trusted: clang -O1 IR is a faithful compilation of the source; ll2c (validated each run against a g++ build on seeded vectors); CBMC+SAT. nsw/nuw flags of the IR are asserted, so signed-overflow UB is visible.', ref='DESIGN.md 3 C17'),
+ 'C10': dict(cat='model_checking', tech='bounded model checking (CBMC/SAT) of the real StdBackend predicates translated from clang IR; the status code is one symbolic 32-bit int',
+   text='All seven StdBackend<Impl> classification predicates and SolveCode() are decided for every 32-bit status code at once (no bound on the code) against the documented ranges; virtual dispatch goes through the real vtable of a harness Impl.',
+   note='Object image: only vptr and status_.first are initialised (CBMC pointer checks show nothing else is read). Message composition in ReportSolution2AMPL (objective fragment) follows IsProblemSolvedOrFeasible by inspection; not encoded. Text of the -! table outside.', ref='DESIGN.md 3 C10'),
 }
 NA = {
  'C09': 'whole-process driver behaviour (exit status, stderr, .sol file on disk) over an instantiated backend: no bounded unit states it and neither CBMC nor the IR engines can carry main->BackendApp::Run with filesystem effects; its encodable ingredients are decided under C02, C10, C11, C12',
